@@ -785,6 +785,12 @@ func (b *BlockWise[C]) processReceivedMessage(w *responsewriter.ResponseWriter[C
 		szx = getSzx(szx, maxSzx)
 		// if there is no more then just forward req to next handler
 		if !more {
+			if blockType == message.Block1 && num > 0 {
+				// The final block of a request body arrived but no transfer is in progress (it expired, was
+				// already completed, or never started): the preceding blocks are not available, so the
+				// body must not be handed over as if it were complete (RFC 7959 2.5: 4.08 Request Entity Incomplete).
+				return fmt.Errorf("final block(%v) of the request body received without the preceding blocks", num)
+			}
 			next(w, r)
 			return nil
 		}
